@@ -10,6 +10,7 @@ import builtins
 import collections
 import concurrent.futures
 import cProfile
+import io
 import json
 import logging
 import os
@@ -18,6 +19,7 @@ import re
 import subprocess
 import sys
 import tempfile
+import tokenize
 from builtins import print as real_print
 from collections.abc import Iterable, Iterator, Mapping, Sequence
 from contextlib import contextmanager
@@ -253,6 +255,24 @@ class BaseNodeVisitor(ast.NodeVisitor):
         return _split_lines(self.contents)
 
     @qcore.caching.cached_per_instance()
+    def _comments(self) -> list[str]:
+        """The comment on each line, or "" if the line has none.
+
+        Text that looks like a comment inside a string literal is not a comment.
+
+        """
+        lines = self._lines()
+        comments = [""] * len(lines)
+        try:
+            for token in tokenize.generate_tokens(io.StringIO(self.contents).readline):
+                if token.type == tokenize.COMMENT and token.start[0] <= len(comments):
+                    comments[token.start[0] - 1] = token.string
+        except (tokenize.TokenError, SyntaxError):
+            # cannot tell comments from strings; fall back to the text of the lines
+            return [line[line.index("#") :] if "#" in line else "" for line in lines]
+        return comments
+
+    @qcore.caching.cached_per_instance()
     def has_file_level_ignore(
         self,
         error_code: Optional[ErrorCodeInstance] = None,
@@ -274,10 +294,11 @@ class BaseNodeVisitor(ast.NodeVisitor):
 
     def get_unused_ignores(self) -> list[tuple[int, str]]:
         """Returns line numbers and lines that have unused ignore comments."""
+        comments = self._comments()
         return [
             (i, line)
             for i, line in enumerate(self._lines())
-            if IGNORE_COMMENT in line and i not in self.used_ignores
+            if IGNORE_COMMENT in comments[i] and i not in self.used_ignores
         ]
 
     def show_errors_for_unused_ignores(self, error_code: ErrorCodeInstance) -> None:
@@ -302,8 +323,9 @@ class BaseNodeVisitor(ast.NodeVisitor):
         if self.has_file_level_ignore():
             # file-level ignores are allowed to be blanket ignores
             return
+        comments = self._comments()
         for i, line in enumerate(self._lines()):
-            if IGNORE_COMMENT in line and IGNORE_COMMENT + "[" not in line:
+            if IGNORE_COMMENT in comments[i] and IGNORE_COMMENT + "[" not in comments[i]:
                 node = _FakeNode(i + 1, line.index(IGNORE_COMMENT))
                 self.show_error(node, error_code=error_code, obey_ignore=False)
 
@@ -671,7 +693,8 @@ class BaseNodeVisitor(ast.NodeVisitor):
         lines = self._lines()
 
         if obey_ignore and lineno is not None:
-            this_line = lines[lineno - 1]
+            comments = self._comments()
+            this_line = comments[lineno - 1]
             if (
                 re.search(f"{re.escape(ignore_comment)}(?!\\[)", this_line)
                 or error_code is not None
@@ -686,6 +709,9 @@ class BaseNodeVisitor(ast.NodeVisitor):
             prev_index = lineno - 2
             while prev_index >= 0:
                 prev_line = lines[prev_index].strip()
+                if prev_line != comments[prev_index].strip():
+                    # not a line with nothing but a comment
+                    break
                 if (
                     prev_line == ignore_comment
                     or error_code is not None
